@@ -258,6 +258,27 @@ theorem sliceFLoop_mono {b : Bytes} {off blen blen' size : Nat} {stop : Nat → 
       · rw [if_neg hst] at h ⊢
         exact ih f' (len + 1) n (by omega) h
 
+/-- completeness of the sentinel loop: the first stopping element inside the window is found -/
+theorem sliceFLoop_complete {b : Bytes} {off blen size : Nat} {stop : Nat → Bool} :
+    ∀ (fuel len n : Nat), len ≤ n → (n + 1) * size ≤ blen → n + 1 ≤ fuel + len →
+      stop (leN b (off + n * size) size) = true →
+      (∀ j, len ≤ j → j < n → stop (leN b (off + j * size) size) = false) →
+      sliceFLoop b off blen size stop fuel len = .ok n := by
+  intro fuel
+  induction fuel with
+  | zero => intro len n h1 _ h3 _ _; omega
+  | succ fuel ih =>
+    intro len n h1 h2 h3 hst hns
+    rw [sliceFLoop_succ]
+    have hle : (len + 1) * size ≤ (n + 1) * size := Nat.mul_le_mul_right _ (by omega)
+    rw [Nat.succ_mul] at hle
+    rw [if_neg (by omega)]
+    by_cases hln : len = n
+    · subst hln; rw [if_pos hst]
+    · have := hns len (Nat.le_refl _) (by omega)
+      rw [if_neg (by simp [this])]
+      exact ih (len + 1) n (by omega) h2 (by omega) hst (fun j hj1 hj2 => hns j (by omega) hj2)
+
 /-! ### NUL search -/
 
 theorem findNul_some {b : Bytes} {off : Nat} :
@@ -435,5 +456,86 @@ theorem map_range_eq_iff {α : Type} (f : Nat → α) (len : Nat) (out : List α
     · have e1 : out[i]? = none := List.getElem?_eq_none (by omega)
       rw [e1]
       simp [hi]
+
+/-! ### the two primitives on EVERY view -/
+
+/-- what `slice` / `read` return lies inside the buffer, is aligned as requested and holds at least
+`min` bytes — for every `View` value (any format, kind, overridden base address), every address and
+every argument: the section table is decoded from the buffer, so its fields are `u32` by construction -/
+theorem View.at_sound (v : View) (a : Addr) (min align : Nat) (r : Ref) (h : v.at a min align = .ok r) :
+    RefOK v.img r ∧ min ≤ r.len ∧ r.align = align := by
+  have hs : ∀ s ∈ v.secs, s.InRange := C07_sections_in_range v.b
+  cases a with
+  | rva x =>
+    unfold View.at View.slice at h
+    cases hk : v.kind <;> rw [hk] at h
+    · exact sliceFile_sound' hs h
+    · exact sliceSection_sound h
+  | va x =>
+    unfold View.at View.read at h
+    cases hk : v.kind <;> rw [hk] at h
+    · exact readFile_sound hs h
+    · exact readSection_sound h
+
+/-! ### `leN` against the little-endian value -/
+
+/-- the little-endian value of the `size` bytes at `off`, for EVERY size (specification side) -/
+def leValue (b : Bytes) (off : Nat) : Nat → Nat
+  | 0 => 0
+  | n+1 => byteAt b off + 256 * leValue b (off + 1) n
+
+/-- `leN` is the little-endian value exactly for the sizes of the integer types -/
+theorem leN_eq_leValue (b : Bytes) (off size : Nat) (h : size = 1 ∨ size = 2 ∨ size = 4 ∨ size = 8) :
+    leN b off size = leValue b off size := by
+  rcases h with rfl | rfl | rfl | rfl
+  · simp [leN, leValue]
+  · simp [leN, leValue, le16]
+  · simp only [leN, leValue, le32, Nat.add_assoc, Nat.reduceAdd]; omega
+  · simp only [leN, leValue, le64, le32, Nat.add_assoc, Nat.reduceAdd]; omega
+
+/-- … and 0 for every other size (so statements through `leN` say nothing about struct elements) -/
+theorem leN_other (b : Bytes) (off size : Nat) (h : ¬ (size = 1 ∨ size = 2 ∨ size = 4 ∨ size = 8)) :
+    leN b off size = 0 := by
+  unfold leN
+  split <;> first | rfl | (exfalso; apply h; simp)
+
+theorem leValue_lt (b : Bytes) : ∀ (size off : Nat), leValue b off size < 256 ^ size := by
+  intro size
+  induction size with
+  | zero => intro off; simp [leValue]
+  | succ n ih =>
+    intro off
+    have := ih (off + 1)
+    have := byteAt_lt b off
+    rw [leValue, Nat.pow_succ]
+    omega
+
+
+/-! ### non-vacuity: a hand-built PE32+ FILE (256 bytes, one section), accepted by the model and by the
+real `pe64::PeFile::from_bytes` / `pelite::PeFile::from_bytes` (checked with the harness) -/
+
+/-- DOS header with `e_lfanew = 64`; PE32+ NT headers (Machine 0x8664, one section, SizeOfOptionalHeader 112,
+Magic 0x20b, ImageBase 0x1_4000_0000, SizeOfImage 288, SizeOfHeaders 240, no data directories); section
+`.data`: VirtualSize 24, VirtualAddress 256, SizeOfRawData 16, PointerToRawData 240; raw data at 240:
+`"hi\0"`, a pad byte, the u16 table `7, 9, 0xffff` (file offset 244 = rva 260) and the length-prefixed
+wide string `2, 'a', 'b'` (file offset 250 = rva 266).  RVAs 272..280 are the zero-filled tail. -/
+def demo64Img : Img := ⟨#[
+    -- 0: "MZ" … e_lfanew = 64
+    77, 90, 0, 0, 0, 0, 0, 0, 0, 0, 0, 0, 0, 0, 0, 0, 0, 0, 0, 0, 0, 0, 0, 0, 0, 0, 0, 0, 0, 0, 0, 0, 0, 0, 0, 0, 0, 0, 0, 0, 0, 0, 0, 0, 0, 0, 0, 0, 0, 0, 0, 0, 0, 0, 0, 0, 0, 0, 0, 0, 64, 0, 0, 0,
+    -- 64: "PE\0\0", file header
+    80, 69, 0, 0, 100, 134, 1, 0, 0, 0, 0, 0, 0, 0, 0, 0, 0, 0, 0, 0, 112, 0, 0, 0,
+    -- 88: optional header (PE32+, 112 bytes)
+    11, 2, 0, 0, 0, 0, 0, 0, 0, 0, 0, 0, 0, 0, 0, 0, 0, 0, 0, 0, 0, 0, 0, 0, 0, 0, 0, 64, 1, 0, 0, 0, 0, 0, 0, 0, 0, 0, 0, 0, 0, 0, 0, 0, 0, 0, 0, 0, 0, 0, 0, 0, 0, 0, 0, 0,
+    32, 1, 0, 0, 240, 0, 0, 0, 0, 0, 0, 0, 0, 0, 0, 0, 0, 0, 0, 0, 0, 0, 0, 0, 0, 0, 0, 0, 0, 0, 0, 0, 0, 0, 0, 0, 0, 0, 0, 0, 0, 0, 0, 0, 0, 0, 0, 0, 0, 0, 0, 0, 0, 0, 0, 0,
+    -- 200: section header ".data"
+    46, 100, 97, 116, 97, 0, 0, 0, 24, 0, 0, 0, 0, 1, 0, 0, 16, 0, 0, 0, 240, 0, 0, 0, 0, 0, 0, 0, 0, 0, 0, 0, 0, 0, 0, 0, 0, 0, 0, 0,
+    -- 240: raw data
+    104, 105, 0, 0, 7, 0, 9, 0, 255, 255, 2, 0, 97, 0, 98, 0], 0⟩
+
+def demo64File : View := ⟨demo64Img, .pe64, .file, 0x140000000⟩
+
+theorem demo64File_ok : fromBytes .pe64 .file demo64Img = .ok demo64File :=
+  (fromBytes_ok_iff _ _ _ _).2 ⟨by decide +kernel,
+    by rw [show imageBaseField .pe64 demo64Img.bytes = 0x140000000 by decide +kernel]; rfl⟩
 
 end Pelite.Pe
